@@ -242,6 +242,10 @@ pub fn contexts() -> Vec<Ctx> {
         // look-arounds with capturing branches: which branch was committed is visible afterwards
         ("(?<=(a)|(X))\\2", Box::new(move |x| Concat(vec![Look(b(Alt(vec![Node::group(la()), Node::group(x)])), true, false), Backref(2)]))),
         ("(?=(a)|(X))\\2", Box::new(move |x| Concat(vec![Look(b(Alt(vec![Node::group(la()), Node::group(x)])), false, false), Backref(2)]))),
+        // an atomic group whose only leftover alternatives come from a look-behind with
+        // alternatives of two lengths (compiled as an alternation of look-behinds)
+        ("(?>(?<=a|(X).))\\1", Box::new(move |x| Concat(vec![Atomic(b(Look(b(Alt(vec![la(), Concat(vec![Node::group(x), Any(false)])])), true, false))), Backref(1)]))),
+        ("(?>(?<=(a)|(X).)b)(?(2)a|b)", Box::new(move |x| Concat(vec![Atomic(b(Concat(vec![Look(b(Alt(vec![Node::group(la()), Concat(vec![Node::group(x), Any(false)])])), true, false), lb()]))), CondGroup(2, b(la()), b(lb()))]))),
         ("(?<=(X)|(.))(?(2)b|a)", Box::new(move |x| Concat(vec![Look(b(Alt(vec![Node::group(x), Node::group(Any(false))])), true, false), CondGroup(2, b(lb()), b(la()))]))),
         ("(?>(a)|(X))\\2?b", Box::new(move |x| Concat(vec![Atomic(b(Alt(vec![Node::group(la()), Node::group(x)]))), Repeat(b(Backref(2)), 0, Some(1), Mode::Greedy), lb()]))),
         // a counted repeat as the WHOLE body of a committing construct: iteration k must be able
